@@ -10,6 +10,7 @@ import (
 	"fmt"
 	"io"
 	"reflect"
+	"strconv"
 
 	"github.com/cockroachdb/redact"
 	"github.com/cockroachdb/redact/interfaces"
@@ -207,6 +208,15 @@ func (e *env) build(v *Val) interface{} {
 			return &s
 		}
 		return s
+	case "arrn":
+		// a value of a struct type made with reflect.StructOf: a distinct Go
+		// type for every n, for type diversity (per-type caches in the code
+		// under test)
+		return distinctTypeValue("A", int(v.I)%1500)
+	case "latesafe":
+		// a value of the array type that this run registers as safe right
+		// before the tasks start (Config.LateReg)
+		return lateRegValue()
 	case "goerr":
 		// a plain error; a value type, because a pointer inside a
 		// container prints as an address under %d/%x
@@ -249,6 +259,26 @@ func (e *env) build(v *Val) interface{} {
 	}
 	panic("harness: unknown value kind " + v.K)
 }
+
+var int8Type = reflect.TypeOf(int8(0))
+
+// distinctTypeValue returns the value {7} of the struct type
+// struct{ <prefix><n> int8 }.
+func distinctTypeValue(prefix string, n int) interface{} {
+	if n < 0 {
+		n = -n
+	}
+	t := reflect.StructOf([]reflect.StructField{{Name: prefix + strconv.Itoa(n), Type: int8Type}})
+	v := reflect.New(t).Elem()
+	v.Field(0).SetInt(7)
+	return v.Interface()
+}
+
+// The type a run registers late must be new to the process: the k-th
+// run of a process uses struct{ L<k> int8 }.
+var lateRegCounter int
+
+func lateRegValue() interface{} { return distinctTypeValue("L", lateRegCounter) }
 
 func child(v *Val) *Val {
 	if len(v.V) == 0 {
